@@ -1329,6 +1329,13 @@ func (bc *Blockchain) resetStateInternal(height uint32, stage stateChangeStage) 
 }
 
 func (bc *Blockchain) initializeNativeCache(blockHeight uint32, d *dao.Simple) error {
+	// Policy's cache (blocked accounts) is consulted while other contracts
+	// initialize theirs (NEO filters candidates with it). When the caches are
+	// re-initialized for another height (state jump, state reset), the old Policy
+	// cache is still there, so it must be refreshed first.
+	if err := bc.policy.InitializeCache(bc.IsHardforkEnabled, blockHeight, d); err != nil {
+		return fmt.Errorf("failed to initialize cache for %s: %w", bc.policy.Metadata().Name, err)
+	}
 	for _, c := range bc.contracts.List {
 		// Check that contract was deployed.
 		if !bc.IsHardforkEnabled(c.ActiveIn(), blockHeight) {
